@@ -282,15 +282,27 @@ fn generator(cfg: &RunCfg, out: &Out) {
         let start_vh = synth_vh(start_number, 1, &start_td);
         let last_vh = synth_vh(last_number, 2, &last_td);
         let with_prev_proof = rng.chance(1, 2);
-        // stored last-N headers: ancestors of the start (numbers start-j)
+        // stored last-N headers: ancestors of the stored tip. The stored tip is the start itself, or - when the start is this
+        // peer's own proved header - a higher header that another peer has proved meanwhile: the remembered headers then lie
+        // partly or wholly ABOVE the start of the request
+        let stored_tip_above = with_prev_proof && rng.chance(1, 3);
+        let tip_number = if stored_tip_above { start_number.saturating_add(rng.range(1, 2 * last_n.min(1000) + 3)) } else { start_number };
+        let tip_td = match start_td.checked_add(&U256::from(tip_number - start_number)) {
+            Some(t) => t,
+            None => continue,
+        };
         let n_stored = rng.range(0, last_n.min(30));
         let mut stored: Vec<HeaderView> = vec![];
         for j in (1..=n_stored).rev() {
-            if start_number >= j {
-                stored.push(synth_header(start_number - j, 9, &U256::one()));
+            if tip_number >= j {
+                stored.push(synth_header(tip_number - j, 9, &U256::one()));
             }
         }
-        storage.update_last_state(&start_td, &start_vh.header().data(), &stored);
+        if stored_tip_above {
+            storage.update_last_state(&tip_td, &synth_vh(tip_number, 3, &tip_td).header().data(), &stored);
+        } else {
+            storage.update_last_state(&start_td, &start_vh.header().data(), &stored);
+        }
         peers.add_peer(peer);
         let ok = if with_prev_proof {
             peers.mock_prove_state(peer, start_vh.clone()).is_ok()
@@ -306,11 +318,11 @@ fn generator(cfg: &RunCfg, out: &Out) {
         out.eval(1);
         let cell = format!(
             "{}|{}|n{}|{}|{}",
-            if from_genesis { "from-genesis" } else if with_prev_proof { "prev-proof" } else { "stored-tip" },
+            if from_genesis { "from-genesis" } else if stored_tip_above { "prev-proof+stored-tip-of-another-peer-above" } else if with_prev_proof { "prev-proof" } else { "stored-tip" },
             gap_class(gap, last_n), last_n, mag_class(&td_gap), if backwards { "td-backwards" } else { "td-fwd" }
         );
         let desc = json!({"k": k, "last_n": last_n, "start_number": start_number, "gap": gap, "start_td": format!("{:#x}", start_td), "last_td": format!("{:#x}", last_td),
-            "with_prev_proof": with_prev_proof, "stored_last_n": stored.len(), "from_genesis": from_genesis});
+            "with_prev_proof": with_prev_proof, "stored_last_n": stored.len(), "stored_tip_number": tip_number, "from_genesis": from_genesis});
         match res {
             Err(Unwound::Panic(p)) => {
                 out.violation("C15.R1", &p.signature("C15", "build_prove_request_content"), json!({"input": desc, "panic": p.message, "at": p.location, "bt": p.backtrace_head}), k);
